@@ -1243,6 +1243,45 @@ theorem public_callables_leave_arguments_unchanged
     rw [← this]; exact hw
   exact pure_of_analyse_nil _ _ f this h0 c hex
 
+
+/-- what the result of a public callable may share memory with (parameter positions), from the summary table -/
+def retOf (nm : String) : Option (List Nat) := (Gen.publicFx.lookup nm).map (rOf fxTable)
+
+/-- Generated from the source: an object built by `Polyline(...)` or `Plane(...)` reaches no memory of the
+constructor's arguments (only itself, position 0: the constructors copy what they are given — C09's "independent of
+the array it was built from", C13's "arrays/copies"), whereas `Box` and `Line` keep their arguments as they come
+(documented public attributes).  A constructor that starts to keep an argument by reference (`np.asarray` instead of
+`np.array`, a view) changes the first two lists. -/
+theorem gen_copying_constructors :
+    retOf "Polyline.__init__" = some [0] ∧ retOf "Plane.__init__" = some [0] ∧
+    retOf "Box.__init__" = some [0, 1, 2] ∧ retOf "Line.__init__" = some [0, 1, 2, 3] := by decide +kernel
+
+/-- in every generated program the variable collecting the returned values is only ever added to -/
+theorem gen_return_vars_only_grow : (Gen.allFx.all fun f => NoMust f.retVar f.body) = true := by decide +kernel
+
+/-- **Results, on the abstraction.**  What a public callable hands back shares memory with an argument only at the
+parameter positions its summary lists: in every execution of its abstract program, an argument region reachable
+from the returned value belongs to one of those parameters. -/
+theorem results_share_memory_only_as_listed
+    (name : String) (id : Nat) (_hp : (name, id) ∈ Gen.publicFx)
+    (f : Fn) (hf : Gen.allFx[id]? = some f) (h0 : Nat → Nat) (c : CState)
+    (hex : ExecList f.nparams (wOf fxTable) (rOf fxTable) (initC f.nparams h0) f.body c) :
+    ∀ o, o ∈ c.env f.retVar → o < f.nparams → o ∈ rOf fxTable id := by
+  have hmem : f ∈ Gen.allFx := List.mem_of_getElem? hf
+  have hb : NoMust f.retVar f.body = true := by
+    have := gen_return_vars_only_grow
+    rw [List.all_eq_true] at this
+    exact this f hmem
+  have hst := gen_summaries_stable
+  have hrow : (round Gen.allFx fxTable)[id]? = some (analyse (wOf fxTable) (rOf fxTable) f) := by
+    simp [round, List.getElem?_map, hf]
+  rw [hst] at hrow
+  have hr : rOf fxTable id = (analyse (wOf fxTable) (rOf fxTable) f).2 := by
+    simp [rOf, List.getD, hrow]
+  intro o ho hn
+  rw [hr]
+  exact sound_reach f _ _ hb h0 c hex o ho hn
+
 /-- non-vacuity: `Plane.signed_distance` is a public callable outside the list, with a program to execute -/
 example : (Gen.publicFx.any fun p => p.1 == "Plane.signed_distance" && !(publicWrites.map (·.1)).contains p.1
     && (Gen.allFx[p.2]?).isSome) = true := by
